@@ -103,7 +103,11 @@ Big(b) ==
     /\ ~(c.j = 0 /\ t = -1)                                 \* c^0 - 1 = 0
     /\ LET num == IF s = 1 THEN NAddSmall(c.ak, 1) ELSE NSub(c.ak, <<1>>)
            den == IF t = 1 THEN NAddSmall(c.cj, 1) ELSE NSub(c.cj, <<1>>)
-       IN \E neg \in NegFor(h) : c' = Case("big", neg, num, den, b, h)
+       IN \E neg \in NegFor(h) :
+            \* digits / fraction modes print every integer digit: only for the smallest of these values
+            c' = CaseM("big", neg, num, den, b,
+                       IF c.k <= 64 /\ c.j <= 50 THEN ModesFor(h)
+                       ELSE {<<"default", 0>>} \cup (IF (h + Seed) % StrideCheap = 0 THEN {<<"sci", 0>>, <<"eng", 0>>} ELSE {}))
 
 \* one action per family (the coverage gate of the engine wants each of them taken)
 GenSmall == c.f = "init" /\ \E b \in Bases : Small(b)
